@@ -69,6 +69,12 @@ func (t *websocketTransport) Send(ctx context.Context, e envelope) error {
 
 	errChan := make(chan error)
 	go func() {
+		// A context that has already ended must not reach the connection: the write would
+		// fail on the elapsed deadline and leave the connection in its permanent error state.
+		if err := ctx.Err(); err != nil {
+			errChan <- err
+			return
+		}
 		errChan <- conn.WriteJSON(e)
 	}()
 
@@ -77,7 +83,15 @@ func (t *websocketTransport) Send(ctx context.Context, e envelope) error {
 		// Effectively fails all pending write operations before returning.
 		// Note that this makes the encoder to be in a permanent error state.
 		_ = conn.SetWriteDeadline(time.Now())
-		<-errChan
+		// (the websocket connection only remembers its deadline for the next write:
+		// a write that is already blocked has to be released on the connection below)
+		_ = conn.UnderlyingConn().SetWriteDeadline(time.Now())
+		if err := <-errChan; err == nil || err == ctx.Err() {
+			// the envelope went out all the same (or was not started) and the connection
+			// is intact: do not leave the elapsed deadline behind for the next send
+			_ = conn.SetWriteDeadline(time.Time{})
+			_ = conn.UnderlyingConn().SetWriteDeadline(time.Time{})
+		}
 		return fmt.Errorf("ws transport: send: %w", ctx.Err())
 	case err := <-errChan:
 		if err != nil {
